@@ -39,6 +39,7 @@ pub proof fn lemma_node_facts(net: &Network, n: NodeIdx)
 {
     assert(net.nodes@.contains_key(n));
     let nd = net.sp_node(n);
+    reveal(Network::bounded_pairs);
     if nd.sp_is_activity() {
         assert(dt_rank(nd.sp_end_time()) - dt_rank(nd.sp_start_time()) <= 0x1000_0000);
     }
@@ -88,6 +89,8 @@ pub proof fn lemma_leg_facts(net: &Network, a: NodeIdx, b: NodeIdx)
     lemma_node_facts(net, a);
     lemma_node_facts(net, b);
     let l1 = net.sp_node(a).sp_end_location(); let l2 = net.sp_node(b).sp_start_location();
+    lemma_locations_wf2(&net.locations, l1, l2);
+    reveal(Network::bounded_pairs);
     if l1 is Station && l2 is Station {
         assert(net.locations.stations@.contains_key(l1->Station_0) && net.locations.stations@.contains_key(l2->Station_0));
     }
@@ -357,9 +360,7 @@ pub proof fn lemma_leg_inf(net: &Network, a: NodeIdx, b: NodeIdx)
     lemma_leg_facts(net, a, b);
     let l1 = net.sp_node(a).sp_end_location(); let l2 = net.sp_node(b).sp_start_location();
     lemma_node_facts(net, a); lemma_node_facts(net, b);
-    if l1 is Station && l2 is Station {
-        assert(net.locations.stations@.contains_key(l1->Station_0) && net.locations.stations@.contains_key(l2->Station_0));
-    }
+    lemma_locations_wf2(&net.locations, l1, l2);
 }
 /// legs between activities are finite, so is their sum
 pub proof fn lemma_psum_dist_activities(net: &Network, m: Seq<NodeIdx>)
@@ -376,4 +377,118 @@ pub proof fn lemma_psum_dist_activities(net: &Network, m: Seq<NodeIdx>)
     lemma_isum_bounds(l, 0, 0x100_0000_0000);
     let a = l.len() as int;
     assert(0x100_0000_0000 * a <= 0x2000_0000_0000_0000) by (nonlinear_arith) requires 0 <= a <= 0x4_0004;
+}
+
+/// all sums of a tour split at positions s <= e1 into P = [..s], M = [s..e1], S = [e1..]
+pub proof fn lemma_split3(net: &Network, nodes: Seq<NodeIdx>, s: int, e1: int)
+    requires net.wf(), all_in_net(net, nodes), len_ok(nodes), 0 <= s <= e1 <= nodes.len(),
+    ensures ({
+        let p = nodes.subrange(0, s); let m = nodes.subrange(s, e1); let u = nodes.subrange(e1, nodes.len() as int);
+        &&& nodes =~= p + m + u
+        &&& all_in_net(net, p) && all_in_net(net, m) && all_in_net(net, u) && all_in_net(net, p + u)
+        &&& nsum(nodes, net.f_node_dur()) == nsum(p, net.f_node_dur()) + nsum(m, net.f_node_dur()) + nsum(u, net.f_node_dur())
+        &&& nsum(nodes, net.f_node_dist()) == nsum(p, net.f_node_dist()) + nsum(m, net.f_node_dist()) + nsum(u, net.f_node_dist())
+        &&& nsum(nodes, net.f_node_cost()) == nsum(p, net.f_node_cost()) + nsum(m, net.f_node_cost()) + nsum(u, net.f_node_cost())
+        &&& psum(nodes, net.f_leg_dist()) == psum(p, net.f_leg_dist()) + mid_p(p, m, u, net.f_leg_dist()) + psum(u, net.f_leg_dist())
+        &&& psum(nodes, net.f_leg_cost()) == psum(p, net.f_leg_cost()) + mid_p(p, m, u, net.f_leg_cost()) + psum(u, net.f_leg_cost())
+        &&& 0 <= nsum(p, net.f_node_dur()) && 0 <= nsum(m, net.f_node_dur()) && 0 <= nsum(u, net.f_node_dur())
+        &&& nsum(nodes, net.f_node_dur()) <= 0x1000_0000 * 0x4_0004
+        &&& 0 <= nsum(p, net.f_node_dist()) && 0 <= nsum(m, net.f_node_dist()) && 0 <= nsum(u, net.f_node_dist())
+        &&& nsum(nodes, net.f_node_dist()) <= 0x2000_0000_0000_0000
+        &&& 0 <= nsum(p, net.f_node_cost()) && 0 <= nsum(m, net.f_node_cost()) && 0 <= nsum(u, net.f_node_cost())
+        &&& 0 <= psum(p, net.f_leg_cost()) && 0 <= psum(u, net.f_leg_cost()) && 0 <= mid_p(p, m, u, net.f_leg_cost())
+        &&& 0 <= psum(p, net.f_leg_dist()) && 0 <= psum(u, net.f_leg_dist()) && 0 <= mid_p(p, m, u, net.f_leg_dist())
+        &&& dsmall(psum(p, net.f_leg_dist())) && dsmall(psum(u, net.f_leg_dist())) && dsmall(psum(nodes, net.f_leg_dist()))
+        &&& net.spec_costs(nodes) <= 0xC000_0000_0000_0000
+    }),
+{
+    let p = nodes.subrange(0, s); let m = nodes.subrange(s, e1); let u = nodes.subrange(e1, nodes.len() as int);
+    assert(nodes =~= p + m + u);
+    assert forall|i: int| 0 <= i < p.len() implies #[trigger] net.has(p[i]) by { assert(net.has(nodes[i])); }
+    assert forall|i: int| 0 <= i < m.len() implies #[trigger] net.has(m[i]) by { assert(net.has(nodes[s + i])); }
+    assert forall|i: int| 0 <= i < u.len() implies #[trigger] net.has(u[i]) by { assert(net.has(nodes[e1 + i])); }
+    assert forall|i: int| 0 <= i < (p + u).len() implies #[trigger] net.has((p + u)[i]) by {
+        if i < p.len() { assert(net.has(p[i])); } else { assert(net.has(u[i - p.len()])); }
+    }
+    lemma_nsum_3(p, m, u, net.f_node_dur());
+    lemma_nsum_3(p, m, u, net.f_node_dist());
+    lemma_nsum_3(p, m, u, net.f_node_cost());
+    lemma_psum_3(p, m, u, net.f_leg_dist());
+    lemma_psum_3(p, m, u, net.f_leg_cost());
+    lemma_useful_duration_sum(net, p); lemma_useful_duration_sum(net, m); lemma_useful_duration_sum(net, u); lemma_useful_duration_sum(net, nodes);
+    lemma_dhd_bounds(net, p); lemma_dhd_bounds(net, m); lemma_dhd_bounds(net, u); lemma_dhd_bounds(net, nodes);
+    lemma_cost_bounds(net, p); lemma_cost_bounds(net, m); lemma_cost_bounds(net, u); lemma_cost_bounds(net, nodes);
+    lemma_mid_nonneg(net, p, m, u);
+    let n = nodes.len() as int;
+    assert(0x1000_0000 * n <= 0x1000_0000 * 0x4_0004) by (nonlinear_arith) requires 0 <= n <= 0x4_0004;
+}
+pub proof fn lemma_mid_nonneg(net: &Network, p: Seq<NodeIdx>, m: Seq<NodeIdx>, u: Seq<NodeIdx>)
+    requires net.wf(), all_in_net(net, p), all_in_net(net, m), all_in_net(net, u), len_ok(m),
+    ensures 0 <= mid_p(p, m, u, net.f_leg_cost()), 0 <= mid_p(p, m, u, net.f_leg_dist()),
+        0 <= junction(p, u, net.f_leg_dist()), 0 <= junction(p, u, net.f_leg_cost()),
+        0 <= junction(p, m, net.f_leg_dist()), 0 <= junction(m, u, net.f_leg_dist()),
+        0 <= junction(p, m, net.f_leg_cost()), 0 <= junction(m, u, net.f_leg_cost()),
+        junction(p, u, net.f_leg_cost()) <= LEG_COST_MAX, junction(p, m, net.f_leg_cost()) <= LEG_COST_MAX, junction(m, u, net.f_leg_cost()) <= LEG_COST_MAX,
+        dsmall(junction(p, u, net.f_leg_dist())), dsmall(junction(p, m, net.f_leg_dist())), dsmall(junction(m, u, net.f_leg_dist())),
+{
+    if p.len() > 0 && u.len() > 0 { assert(net.has(p[p.len() - 1]) && net.has(u[0])); lemma_leg_facts(net, p.last(), u.first()); }
+    if p.len() > 0 && m.len() > 0 { assert(net.has(p[p.len() - 1]) && net.has(m[0])); lemma_leg_facts(net, p.last(), m.first()); }
+    if m.len() > 0 && u.len() > 0 { assert(net.has(m[m.len() - 1]) && net.has(u[0])); lemma_leg_facts(net, m.last(), u.first()); }
+    lemma_cost_bounds(net, m);
+    lemma_dhd_bounds(net, m);
+}
+/// sums of the remaining tour P + S
+pub proof fn lemma_join2(net: &Network, p: Seq<NodeIdx>, u: Seq<NodeIdx>)
+    ensures
+        nsum(p + u, net.f_node_dur()) == nsum(p, net.f_node_dur()) + nsum(u, net.f_node_dur()),
+        nsum(p + u, net.f_node_dist()) == nsum(p, net.f_node_dist()) + nsum(u, net.f_node_dist()),
+        nsum(p + u, net.f_node_cost()) == nsum(p, net.f_node_cost()) + nsum(u, net.f_node_cost()),
+        psum(p + u, net.f_leg_dist()) == psum(p, net.f_leg_dist()) + junction(p, u, net.f_leg_dist()) + psum(u, net.f_leg_dist()),
+        psum(p + u, net.f_leg_cost()) == psum(p, net.f_leg_cost()) + junction(p, u, net.f_leg_cost()) + psum(u, net.f_leg_cost()),
+{
+    lemma_nsum_append(p, u, net.f_node_dur());
+    lemma_nsum_append(p, u, net.f_node_dist());
+    lemma_nsum_append(p, u, net.f_node_cost());
+    lemma_psum_append(p, u, net.f_leg_dist());
+    lemma_psum_append(p, u, net.f_leg_cost());
+}
+/// removing activities from between two remaining nodes cannot make an infinite dead-head distance finite
+pub proof fn lemma_remove_keeps_infinity(net: &Network, p: Seq<NodeIdx>, m: Seq<NodeIdx>, u: Seq<NodeIdx>)
+    requires net.wf(), all_in_net(net, p), all_in_net(net, m), all_in_net(net, u), len_ok(p), len_ok(m), len_ok(u),
+        p.len() > 0, u.len() > 0, m.len() > 0, no_depot(net, m),
+        psum(p, net.f_leg_dist()) + mid_p(p, m, u, net.f_leg_dist()) + psum(u, net.f_leg_dist()) >= DBIG,
+    ensures psum(p, net.f_leg_dist()) + junction(p, u, net.f_leg_dist()) + psum(u, net.f_leg_dist()) >= DBIG,
+{
+    let g = net.f_leg_dist();
+    lemma_dhd_bounds(net, p); lemma_dhd_bounds(net, u);
+    lemma_mid_nonneg(net, p, m, u);
+    lemma_psum_dist_activities(net, m);
+    if psum(p, g) < DBIG && psum(u, g) < DBIG {
+        assert(net.has(p[p.len() - 1]) && net.has(u[0]) && net.has(m[0]) && net.has(m[m.len() - 1]));
+        assert(net.sp_node(m[0]).sp_is_activity() && net.sp_node(m[m.len() - 1]).sp_is_activity());
+        lemma_node_facts(net, m[0]); lemma_node_facts(net, m[m.len() - 1]);
+        assert(net.nodes@.contains_key(m[0]) && net.nodes@.contains_key(m[m.len() - 1]));
+        lemma_leg_inf(net, p.last(), m.first());
+        lemma_leg_inf(net, m.last(), u.first());
+        lemma_leg_inf(net, p.last(), u.first());
+    }
+}
+/// visits-maintenance of the concatenation
+pub proof fn lemma_vm_concat(net: &Network, a: Seq<NodeIdx>, b: Seq<NodeIdx>)
+    ensures net.spec_visits_maintenance(a + b) == (net.spec_visits_maintenance(a) || net.spec_visits_maintenance(b)),
+{
+    let c = a + b;
+    if net.spec_visits_maintenance(a) {
+        let k = choose|k: int| 0 <= k < a.len() && #[trigger] net.sp_node(a[k]) is Maintenance;
+        assert(c[k] == a[k]); assert(net.sp_node(c[k]) is Maintenance);
+    }
+    if net.spec_visits_maintenance(b) {
+        let k = choose|k: int| 0 <= k < b.len() && #[trigger] net.sp_node(b[k]) is Maintenance;
+        assert(c[a.len() + k] == b[k]); assert(net.sp_node(c[a.len() + k]) is Maintenance);
+    }
+    if net.spec_visits_maintenance(c) {
+        let k = choose|k: int| 0 <= k < c.len() && #[trigger] net.sp_node(c[k]) is Maintenance;
+        if k < a.len() { assert(c[k] == a[k]); assert(net.sp_node(a[k]) is Maintenance); }
+        else { assert(c[k] == b[k - a.len()]); assert(net.sp_node(b[k - a.len()]) is Maintenance); }
+    }
 }
